@@ -26,12 +26,6 @@ Proof.
   - rewrite in_app_iff. simpl. split; [intros [H|[H|[]]]; auto | intros [H|H]; auto].
 Qed.
 
-Lemma set_del_In f m g : In g (set_del f m) <-> In g m /\ g <> f.
-Proof.
-  unfold set_del. rewrite filter_In, negb_true_iff, str_eqb_sym, str_eqb_neq.
-  split; intros [H1 H2]; split; auto.
-Qed.
-
 Lemma NoDup_snoc {A} (l : list A) x : NoDup l -> ~ In x l -> NoDup (l ++ [x]).
 Proof.
   induction l as [|y l IH]; simpl; intros Hn Hx.
@@ -39,55 +33,6 @@ Proof.
   - inversion Hn as [|? ? Hy Hl]; subst. constructor.
     + rewrite in_app_iff. simpl. intros [H|[H|[]]]; [auto | subst; auto].
     + apply IH; auto.
-Qed.
-
-Lemma set_add_NoDup f m : NoDup m -> NoDup (set_add f m).
-Proof.
-  intros H. unfold set_add. destruct (mem f m) eqn:E; [assumption|].
-  apply mem_false in E. now apply NoDup_snoc.
-Qed.
-
-Lemma set_del_NoDup f m : NoDup m -> NoDup (set_del f m).
-Proof. intros H. unfold set_del. now apply NoDup_filter. Qed.
-
-(** generic fold facts *)
-Lemma add_all_In new : forall m g, In g (add_all new m) <-> In g m \/ named new g.
-Proof.
-  unfold add_all, named. induction new as [|f new IH]; intros m g; simpl.
-  - split; [auto | intros [H|[[] _]]; auto].
-  - rewrite IH. destruct (str_eqb_spec f RECENT) as [->|Hn].
-    + split; intros [H|[H1 H2]]; auto.
-      destruct H1 as [<-|H1]; [congruence | auto].
-    + rewrite set_add_In. split.
-      * intros [[->|H]|[H1 H2]]; auto.
-      * intros [H|[[<-|H1] H2]]; auto.
-Qed.
-
-Lemma del_all_In new : forall m g, In g (del_all new m) <-> In g m /\ ~ named new g.
-Proof.
-  unfold del_all, named. induction new as [|f new IH]; intros m g; simpl.
-  - split; [intros H; split; [auto | intros [[] _]] | intros [H _]; auto].
-  - rewrite IH. destruct (str_eqb_spec f RECENT) as [->|Hn].
-    + split; intros [H Hx]; split; auto.
-      * intros [[<-|H1] H2]; [congruence | apply Hx; auto].
-      * intros [H1 H2]. apply Hx; auto.
-    + rewrite set_del_In. split.
-      * intros [[H Hg] Hx]. split; auto. intros [[<-|H1] H2]; [congruence | apply Hx; auto].
-      * intros [H Hx]. split; [split; auto|].
-        -- intros ->. apply Hx. split; auto.
-        -- intros [H1 H2]. apply Hx; auto.
-Qed.
-
-Lemma add_all_NoDup new : forall m, NoDup m -> NoDup (add_all new m).
-Proof.
-  unfold add_all. induction new as [|f new IH]; intros m H; simpl; [assumption|].
-  apply IH. destruct (str_eqb f RECENT); [assumption | now apply set_add_NoDup].
-Qed.
-
-Lemma del_all_NoDup new : forall m, NoDup m -> NoDup (del_all new m).
-Proof.
-  unfold del_all. induction new as [|f new IH]; intros m H; simpl; [assumption|].
-  apply IH. destruct (str_eqb f RECENT); [assumption | now apply set_del_NoDup].
 Qed.
 
 Lemma to_set_gen l : forall m g, In g (fold_left (fun m f => set_add f m) l m) <-> In g m \/ In g l.
@@ -99,17 +44,158 @@ Proof.
     + intros [H|[<-|H]]; auto.
 Qed.
 
+(** parseFlagsToSet keeps exactly the atoms *)
 Lemma to_set_In l g : In g (to_set l) <-> In g l.
 Proof. unfold to_set. rewrite to_set_gen. simpl. split; [intros [[]|H]; auto | auto]. Qed.
 
-Lemma to_set_NoDup_gen l : forall m, NoDup m -> NoDup (fold_left (fun m f => set_add f m) l m).
+(** ---------- keys ---------- *)
+
+Lemma eqf_key a b : eqf a b = true <-> fkey a = fkey b.
+Proof. unfold eqf, equal_fold, fkey. apply str_eqb_eq. Qed.
+
+Lemma eqf_false a b : eqf a b = false <-> fkey a <> fkey b.
+Proof. rewrite <- eqf_key. destruct (eqf a b); split; congruence. Qed.
+
+Lemma mem_ci_In f m : mem_ci f m = true <-> In (fkey f) (keys m).
 Proof.
-  induction l as [|f l IH]; intros m H; simpl; [assumption|].
-  apply IH. now apply set_add_NoDup.
+  unfold mem_ci, keys. rewrite existsb_exists, in_map_iff. split.
+  - intros [g [Hin He]]. apply eqf_key in He. exists g. auto.
+  - intros [g [He Hin]]. exists g. split; [assumption|]. apply eqf_key. auto.
 Qed.
 
-Lemma to_set_NoDup l : NoDup (to_set l).
-Proof. apply to_set_NoDup_gen. constructor. Qed.
+Lemma mem_ci_false f m : mem_ci f m = false <-> ~ In (fkey f) (keys m).
+Proof. rewrite <- mem_ci_In. destruct (mem_ci f m); split; congruence. Qed.
+
+Lemma mem_ci_keys f m : mem_ci f m = mem (fkey f) (keys m).
+Proof.
+  apply eq_iff_eq_true. now rewrite mem_ci_In, mem_In.
+Qed.
+
+Lemma keys_app a b : keys (a ++ b) = keys a ++ keys b.
+Proof. apply map_app. Qed.
+
+Lemma set_add_ci_keys f m k : In k (keys (set_add_ci f m)) <-> k = fkey f \/ In k (keys m).
+Proof.
+  unfold set_add_ci. destruct (mem_ci f m) eqn:E.
+  - apply mem_ci_In in E. split; [now right | intros [->|H]; assumption].
+  - rewrite keys_app, in_app_iff. simpl. split; [intros [H|[H|[]]]; auto | intros [H|H]; auto].
+Qed.
+
+Lemma set_del_ci_keys f m k : In k (keys (set_del_ci f m)) <-> In k (keys m) /\ k <> fkey f.
+Proof.
+  unfold set_del_ci, keys. rewrite !in_map_iff. split.
+  - intros [g [Hk Hg]]. apply filter_In in Hg. destruct Hg as [Hg Hn].
+    apply negb_true_iff, eqf_false in Hn. split; [exists g; auto | congruence].
+  - intros [[g [Hk Hg]] Hn]. exists g. split; [assumption|]. apply filter_In. split; [assumption|].
+    apply negb_true_iff, eqf_false. congruence.
+Qed.
+
+Lemma set_add_ci_NoDup f m : NoDup (keys m) -> NoDup (keys (set_add_ci f m)).
+Proof.
+  intros H. unfold set_add_ci. destruct (mem_ci f m) eqn:E; [assumption|].
+  apply mem_ci_false in E. rewrite keys_app. now apply NoDup_snoc.
+Qed.
+
+Lemma NoDup_map_filter {A B} (f : A -> B) p l : NoDup (map f l) -> NoDup (map f (filter p l)).
+Proof.
+  induction l as [|x l IH]; simpl; intros H; [constructor|].
+  inversion H as [|? ? Hx Hn]; subst. destruct (p x); simpl; [|auto].
+  constructor; [|auto]. intros Hin. apply Hx. apply in_map_iff in Hin. destruct Hin as [y [Hy1 Hy2]].
+  apply filter_In in Hy2. rewrite <- Hy1. apply in_map. tauto.
+Qed.
+
+Lemma set_del_ci_NoDup f m : NoDup (keys m) -> NoDup (keys (set_del_ci f m)).
+Proof. intros H. unfold set_del_ci, keys. now apply NoDup_map_filter. Qed.
+
+Lemma recent_cases f : (eqf f RECENT = true /\ fkey f = fkey RECENT) \/ (eqf f RECENT = false /\ fkey f <> fkey RECENT).
+Proof. destruct (eqf f RECENT) eqn:E; [left | right]; split; auto; [now apply eqf_key | now apply eqf_false]. Qed.
+
+Lemma add_all_keys new : forall m k, In k (keys (add_all new m)) <-> In k (keys m) \/ named new k.
+Proof.
+  unfold add_all, named. induction new as [|f new IH]; intros m k; simpl.
+  - split; [auto | intros [H|[[] _]]; auto].
+  - rewrite IH. destruct (recent_cases f) as [[E Hk]|[E Hk]]; rewrite E.
+    + split; intros [H|[H1 H2]]; auto.
+      destruct H1 as [<-|H1]; [congruence | auto].
+    + rewrite set_add_ci_keys. split.
+      * intros [[->|H]|[H1 H2]]; auto.
+      * intros [H|[[<-|H1] H2]]; auto.
+Qed.
+
+Lemma del_all_keys new : forall m k, In k (keys (del_all new m)) <-> In k (keys m) /\ ~ named new k.
+Proof.
+  unfold del_all, named. induction new as [|f new IH]; intros m k; simpl.
+  - split; [intros H; split; [auto | intros [[] _]] | intros [H _]; auto].
+  - rewrite IH. destruct (recent_cases f) as [[E Hk]|[E Hk]]; rewrite E.
+    + split; intros [H Hx]; split; auto.
+      * intros [[<-|H1] H2]; [congruence | apply Hx; auto].
+      * intros [H1 H2]. apply Hx; auto.
+    + rewrite set_del_ci_keys. split.
+      * intros [[H Hg] Hx]. split; auto. intros [[<-|H1] H2]; [congruence | apply Hx; auto].
+      * intros [H Hx]. split; [split; auto|].
+        -- intros ->. apply Hx. split; auto.
+        -- intros [H1 H2]. apply Hx; auto.
+Qed.
+
+Lemma add_all_NoDup new : forall m, NoDup (keys m) -> NoDup (keys (add_all new m)).
+Proof.
+  unfold add_all. induction new as [|f new IH]; intros m H; simpl; [assumption|].
+  apply IH. destruct (eqf f RECENT); [assumption | now apply set_add_ci_NoDup].
+Qed.
+
+Lemma del_all_NoDup new : forall m, NoDup (keys m) -> NoDup (keys (del_all new m)).
+Proof.
+  unfold del_all. induction new as [|f new IH]; intros m H; simpl; [assumption|].
+  apply IH. destruct (eqf f RECENT); [assumption | now apply set_del_ci_NoDup].
+Qed.
+
+Lemma to_set_ci_gen l : forall m k, In k (keys (fold_left (fun m f => set_add_ci f m) l m)) <-> In k (keys m) \/ In k (keys l).
+Proof.
+  induction l as [|f l IH]; intros m k; simpl.
+  - split; [auto | intros [H|[]]; auto].
+  - rewrite IH, set_add_ci_keys. split.
+    + intros [[->|H]|H]; auto.
+    + intros [H|[<-|H]]; auto.
+Qed.
+
+Lemma to_set_ci_keys l k : In k (keys (to_set_ci l)) <-> In k (keys l).
+Proof. unfold to_set_ci. rewrite to_set_ci_gen. simpl. split; [intros [[]|H]; auto | auto]. Qed.
+
+Lemma to_set_ci_NoDup_gen l : forall m, NoDup (keys m) -> NoDup (keys (fold_left (fun m f => set_add_ci f m) l m)).
+Proof.
+  induction l as [|f l IH]; intros m H; simpl; [assumption|].
+  apply IH. now apply set_add_ci_NoDup.
+Qed.
+
+Lemma to_set_ci_NoDup l : NoDup (keys (to_set_ci l)).
+Proof. apply to_set_ci_NoDup_gen. constructor. Qed.
+
+(** every atom kept is a spelling that was supplied *)
+Lemma set_add_ci_incl f m g : In g (set_add_ci f m) -> g = f \/ In g m.
+Proof.
+  unfold set_add_ci. destruct (mem_ci f m); [auto|]. rewrite in_app_iff. simpl. intuition.
+Qed.
+Lemma set_del_ci_incl f m g : In g (set_del_ci f m) -> In g m.
+Proof. unfold set_del_ci. rewrite filter_In. tauto. Qed.
+
+Lemma add_all_incl new : forall m g, In g (add_all new m) -> In g m \/ In g new.
+Proof.
+  unfold add_all. induction new as [|f new IH]; intros m g; simpl; [auto|].
+  intros H. apply IH in H. destruct H as [H|H]; [|auto].
+  destruct (eqf f RECENT); [auto|]. apply set_add_ci_incl in H. destruct H as [->|H]; auto.
+Qed.
+Lemma del_all_incl new : forall m g, In g (del_all new m) -> In g m.
+Proof.
+  unfold del_all. induction new as [|f new IH]; intros m g; simpl; [auto|].
+  intros H. apply IH in H. destruct (eqf f RECENT); [auto|]. now apply set_del_ci_incl in H.
+Qed.
+Lemma to_set_ci_incl l g : In g (to_set_ci l) -> In g l.
+Proof.
+  unfold to_set_ci. assert (K : forall m, In g (fold_left (fun m f => set_add_ci f m) l m) -> In g m \/ In g l).
+  { induction l as [|f l IH]; intros m; simpl; [auto|]. intros H. apply IH in H. destruct H as [H|H]; [|auto].
+    apply set_add_ci_incl in H. destruct H as [->|H]; auto. }
+  intros H. apply K in H. destruct H as [[]|H]; assumption.
+Qed.
 
 Lemma item_of_cases s it : item_of s = Some it ->
   (it = Replace /\ s = IT_FLAGS) \/ (it = Add /\ s = IT_ADD) \/ (it = Remove /\ s = IT_DEL).
@@ -120,47 +206,52 @@ Proof.
   destruct (str_eqb_spec s IT_DEL); [intros [= <-]; auto 6|]. discriminate.
 Qed.
 
-(** CalculateNewFlags computes exactly the set algebra, for all inputs. *)
+(** CalculateNewFlags computes exactly the set algebra on flag keys, for all
+    inputs; no flag twice in any spelling; only supplied spellings are kept. *)
 Theorem calculate_new_flags_exact (cur new : list str) (s : str) (it : item) :
   item_of s = Some it ->
-  (forall f, In f (calculate_new_flags cur new s) <-> apply_rel it cur new f)
-  /\ NoDup (calculate_new_flags cur new s).
+  (forall k, In k (keys (calculate_new_flags cur new s)) <-> apply_rel it cur new k)
+  /\ NoDup (keys (calculate_new_flags cur new s))
+  /\ (forall f, In f (calculate_new_flags cur new s) -> In f cur \/ In f new).
 Proof.
   intros H. destruct (item_of_cases _ _ H) as [[-> ->]|[[-> ->]|[-> ->]]];
     unfold calculate_new_flags; cbn [apply_rel].
-  - change (str_eqb IT_FLAGS IT_FLAGS) with true. cbv iota. split.
-    + intros f. rewrite add_all_In. simpl. split; [intros [[]|H1]; auto | auto].
+  - change (str_eqb IT_FLAGS IT_FLAGS) with true. cbv iota. split; [|split].
+    + intros k. rewrite add_all_keys. simpl. split; [intros [[]|H1]; auto | auto].
     + apply add_all_NoDup. constructor.
-  - change (str_eqb IT_ADD IT_FLAGS) with false. change (str_eqb IT_ADD IT_ADD) with true. cbv iota. split.
-    + intros f. now rewrite add_all_In, to_set_In.
-    + apply add_all_NoDup, to_set_NoDup.
+    + intros f Hf. apply add_all_incl in Hf. destruct Hf as [[]|Hf]; auto.
+  - change (str_eqb IT_ADD IT_FLAGS) with false. change (str_eqb IT_ADD IT_ADD) with true. cbv iota. split; [|split].
+    + intros k. now rewrite add_all_keys, to_set_ci_keys.
+    + apply add_all_NoDup, to_set_ci_NoDup.
+    + intros f Hf. apply add_all_incl in Hf. destruct Hf as [Hf|Hf]; auto. left. now apply to_set_ci_incl.
   - change (str_eqb IT_DEL IT_FLAGS) with false. change (str_eqb IT_DEL IT_ADD) with false.
-    change (str_eqb IT_DEL IT_DEL) with true. cbv iota. split.
-    + intros f. now rewrite del_all_In, to_set_In.
-    + apply del_all_NoDup, to_set_NoDup.
+    change (str_eqb IT_DEL IT_DEL) with true. cbv iota. split; [|split].
+    + intros k. now rewrite del_all_keys, to_set_ci_keys.
+    + apply del_all_NoDup, to_set_ci_NoDup.
+    + intros f Hf. left. apply del_all_incl in Hf. now apply to_set_ci_incl.
 Qed.
 
 (** any other data item leaves the set as it is (HandleStore rejects it before) *)
 Lemma calculate_new_flags_other cur new s : item_of s = None ->
-  forall f, In f (calculate_new_flags cur new s) <-> In f cur.
+  forall k, In k (keys (calculate_new_flags cur new s)) <-> In k (keys cur).
 Proof.
-  unfold item_of, calculate_new_flags. intros H f.
+  unfold item_of, calculate_new_flags. intros H k.
   destruct (str_eqb s IT_FLAGS); [discriminate|].
   destruct (str_eqb s IT_ADD); [discriminate|].
-  destruct (str_eqb s IT_DEL); [discriminate|]. apply to_set_In.
+  destruct (str_eqb s IT_DEL); [discriminate|]. apply to_set_ci_keys.
 Qed.
 
 (** the boolean oracle agrees with the relation *)
-Lemma named_b_spec new f : named_b new f = true <-> named new f.
+Lemma named_b_spec new k : named_b new k = true <-> named new k.
 Proof.
   unfold named_b, named. rewrite andb_true_iff, mem_In, negb_true_iff, str_eqb_neq. tauto.
 Qed.
 
-Lemma apply_b_spec it cur new f : apply_b it cur new f = true <-> apply_rel it cur new f.
+Lemma apply_b_spec it cur new k : apply_b it cur new k = true <-> apply_rel it cur new k.
 Proof.
   destruct it; simpl.
   - apply named_b_spec.
   - rewrite orb_true_iff, mem_In, named_b_spec. tauto.
   - rewrite andb_true_iff, mem_In, negb_true_iff. rewrite <- named_b_spec.
-    destruct (named_b new f); split; intros [H1 H2]; split; auto; congruence.
+    destruct (named_b new k); split; intros [H1 H2]; split; auto; congruence.
 Qed.
